@@ -1843,15 +1843,18 @@ class Engine:
         raise Unsupported('break/continue outside loop')
       if oc == NORMAL:
         oc, val = RETURN, sv.mk_none()
+        if u.get('result_var'):
+          val = s2.env[u['result_var']]
       if oc == RETURN:
         n_normal += 1
         rt = self.ret_type()
         if rt is not None and not isinstance(val, RecV):
           val = coerce(val, rt)
+        fin = {'final_' + k_: v_ for k_, v_ in s2.env.items() if isinstance(v_, V) and '.' not in k_}
         for k, e in enumerate(u.get('ensures', [])):
           if k in u.get('smt_skip_ensures', []):
             continue          # clause stated for the native back end only (see sidecar)
-          f = self.spec_formula(e, s2, old_env=old_env, bound={'result': val})
+          f = self.spec_formula(e, s2, old_env=old_env, bound=dict(fin, result=val))
           self.emit(s2, 'post', f, None, e, tag='[%d]' % k)
         for exc, cond in raises.items():
           tmp = St()
